@@ -232,6 +232,16 @@ def h_inductive(ctx):
     for a, b in zip(post, post[1:]):
         ctx.check(a < b, "inv-times-increasing")
     regs = [out._connected_inputs[inp] for inp in ends]
+    # the output's record of each consumer's last request is the harness' record (the invariant below is stated
+    # on it): unchanged for consumers that did not pull, the request time after a served pull
+    for k in range(n):
+        if ev != 0 and k == ev - 1 and res[0] != "ok":
+            continue  # a refused request may or may not be recorded
+        if last[k] is None:
+            ctx.check(regs[k] is None, "bookkeeping-differs-from-requests", {"sig": "inductive:phantom"})
+        else:
+            ctx.check(regs[k] is not None and bool(ctx.eq(regs[k], last[k])), "bookkeeping-differs-from-requests",
+                      {"sig": "inductive"})
     for x in regs:
         if x is not None:
             ctx.check(x <= post[-1], "inv-request-beyond-newest")
